@@ -184,9 +184,13 @@ def explore(item):
                                      'reported': 'success', 'small_buffers': SMALL_BUFFERS[0]}, n[0])
                 return ('ok', fired[0], n[0])
             if os.path.exists(out):
-                size = os.path.getsize(out)
-                return ('left', {'fault': fired[0], 'size': size, 'full': len(ref), 'regenerate': regen,
-                                 'small_buffers': SMALL_BUFFERS[0]}, n[0])
+                with open(out) as f:
+                    got = f.read()
+                # a *complete* file left by a run that failed at the very end is not a truncated file
+                if _norm(got) != _norm(ref):
+                    return ('left', {'fault': fired[0], 'size': len(got), 'full': len(ref), 'regenerate': regen,
+                                     'small_buffers': SMALL_BUFFERS[0]}, n[0])
+                return ('ok', fired[0], n[0])
             # second run without overwrite must produce the complete file
             out2 = run_generator(ti, d, lambda op: None)
             with open(out2) as f:
@@ -258,7 +262,17 @@ def replay_fault(ti, index, regenerate=False, small_buffers=True, kind=0):
             pass
         out = os.path.join(d, TARGETS[ti][2])
         if os.path.exists(out):
-            return True, 'partial file of %d bytes left behind' % os.path.getsize(out)
+            d2 = tempfile.mkdtemp(prefix='c31r_')
+            try:
+                with open(run_generator(ti, d2, lambda op: None)) as f:
+                    ref = f.read()
+            finally:
+                _rmtree(d2)
+            with open(out) as f:
+                got = f.read()
+            if _norm(got) != _norm(ref):
+                return True, 'partial file of %d of %d bytes left behind' % (len(got), len(ref))
+            return False, 'a complete file is left'
         return False, 'no file left'
     finally:
         _rmtree(d)
